@@ -204,4 +204,18 @@ theorem c_elias_code_lengths (v : Nat) (h1 : 1 ≤ v) (h64 : v < 2 ^ 64) (fuel :
   rw [a, b]
   exact ⟨g1, g2, c, d⟩
 
+
+/-- **`varintRLESize` / `varintRLEIsBeneficial` on the translated C**: the advertised size is exactly the number of bytes
+    of the encoding (the same number `varintRLEEncode` returns and stores, see `c_rle_encoder_within_predicted_size`), and
+    the "beneficial" answer is true exactly when that is below the raw 8·n bytes -/
+theorem c_rle_size_exact (xs : List Nat) (hx : ∀ x ∈ xs, x < 2 ^ 64) (hn : xs.length < 2 ^ 56) (fuel : Nat)
+    (hf : xs.length + 1 ≤ fuel) :
+    Varint.Gen.C.rleSize fuel (Varint.Bridge.Tagged.bufOf xs) xs.length = some (RLE.enc xs).length ∧
+    Varint.Gen.C.rleIsBeneficial fuel (Varint.Bridge.Tagged.bufOf xs) xs.length =
+      some (if xs ≠ [] ∧ (RLE.enc xs).length < 8 * xs.length then 1 else 0) := by
+  have hl : (RLE.enc xs).length = RLE.size xs := RLE.enc_length xs
+  rw [hl]
+  exact ⟨Varint.Bridge.RLE.rleSize_eq xs hx (by omega) fuel hf,
+    Varint.Bridge.RLE.rleIsBeneficial_eq xs hx (by omega) fuel hf⟩
+
 end Varint.Props.C03
